@@ -120,6 +120,8 @@ func New(maxConcurrent int, chQqueueSize int, v ...interface{}) *TaskPool {
 				if tp.fork(f) {
 					continue
 				}
+				// fork failed: give back the slot it has taken, as Go does.
+				atomic.AddInt64(&tp.concurrent, -1)
 
 				if f != nil {
 					tp.caller(f)
